@@ -11,7 +11,8 @@ def _ilm_pred(tree, name):
     """InstanceLabelMap.contains_or / contains_and as a boolean function of (pred_in, ref_in)."""
     f = find_func(tree, name, "InstanceLabelMap")
     body = strip_doc(f.body)
-    PIN, RIN = "True if pred_label is None else pred_label in self.labelmap", "True if ref_label is None else ref_label in self.labelmap.values()"
+    # (normalised spelling: `True if x is None else x in m` is written `x is None or x in m`)
+    PIN, RIN = "pred_label is None or pred_label in self.labelmap", "ref_label is None or ref_label in self.labelmap.values()"
     if len(body) == 3:
         b = [ast.unparse(s) for s in body]
         if b[0] != "pred_in = " + PIN:
@@ -69,7 +70,7 @@ def matcher_loop():
     lp = loops[0]
     if ast.unparse(lp.target) != "(matching_score, (ref_label, pred_label))":
         raise Refuse("naive loop header " + ast.unparse(lp.target))
-    _candidates(f, lp, "naive")
+    how = _candidates(f, lp, "naive")
     calls = {
         "labelmap.contains_or": lambda a, k=None: _args(a, ["p", "r"], ("cor", "bool")),
         "labelmap.contains_pred": lambda a, k=None: _args(a, ["p"], ("cp", "bool")),
@@ -82,7 +83,7 @@ def matcher_loop():
     out.append("Definition gen_naive_step (m2o cor cp beat : bool) : gen_action := " + _loop_body(lp.body, Tr(env, calls)) + ".")
     # what comes before the loop: candidates computed by _calc_matching_metric_of_overlapping_labels(pred, ref, ref_labels, metric)
     src = ast.unparse(f)
-    if "pred_arr, ref_arr = (unmatched_instance_pair.prediction_arr, unmatched_instance_pair.reference_arr)" not in src:
+    if how == "named" and "pred_arr, ref_arr = (unmatched_instance_pair.prediction_arr, unmatched_instance_pair.reference_arr)" not in src:
         raise Refuse("naive arrays")
     # ---- merge loop
     f = find_func(mt, "_match_instances", "MaximizeMergeMatching")
@@ -163,8 +164,14 @@ def _candidates(f, lp, which):
     names = ["prediction_arr", "reference_arr", "ref_labels", "matching_metric"]
     got = {names[i]: ast.unparse(a) for i, a in enumerate(it.args)}
     got.update({k.arg: ast.unparse(k.value) for k in it.keywords})
-    if got != {"prediction_arr": "pred_arr", "reference_arr": "ref_arr", "ref_labels": "ref_labels", "matching_metric": "self._matching_metric"}:
+    direct = {"prediction_arr": "unmatched_instance_pair.prediction_arr", "reference_arr": "unmatched_instance_pair.reference_arr"}
+    named = {"prediction_arr": "pred_arr", "reference_arr": "ref_arr"}
+    rest = {"ref_labels": "ref_labels", "matching_metric": "self._matching_metric"}
+    if got == {**direct, **rest}:
+        return "direct"
+    if got != {**named, **rest}:
         raise Refuse(which + " candidates call arguments " + str(got))
+    return "named"
 
 
 def _args(args, want, result):
